@@ -213,96 +213,150 @@ def _delete_if_exists(ctx):
 
 
 def _last_bytes(ctx):
+    """The file is an abstract object with a position: seek() moves and
+    returns it, tell() reports it, read() hands out the bytes from it to the
+    end.  The first seek may fail with an injected OSError (errno symbolic);
+    what is compared is the data position and the reported count, whatever
+    calls produced them."""
+    from ..core.models import binop
+    import ast as _ast
     rep, world = ctx.report, ctx.world
     f = world.func(MOD, 'last_bytes')
     rep.analysed('fileutils.last_bytes')
+    num, SIZE = T('sym', 'num'), T('sym', 'size')
     holder = {}
-    num = T('sym', 'num')
+
+    def add(interp, a, b):
+        return binop(interp, _ast.Add(), a, b)
+
+    def hook(interp, name, fv, args, kwargs):
+        if name != 'open':
+            return NotImplemented
+        interp.effect('call', 'open', tuple(interp.termify(a) for a in args))
+        st = {'pos': K(0), 'seeks': 0, 'closed': False}
+        holder['st'] = st
+        fobj = Obj(None, {}, label='file')
+
+        def seek(i2, a, kw):
+            off = a[0]
+            whence = a[1] if len(a) > 1 else kw.get('whence', K(0))
+            st['seeks'] += 1
+            i2.effect('call', '.seek', (i2.termify(off), i2.termify(whence)))
+            if st['seeks'] == 1 and i2.truth(RAISES):
+                exc = Obj(None, {'errno': ERRNO, '__class_name__': 'OSError'},
+                          label='injected-OSError')
+                raise AbsRaise(exc)
+            if whence == K(2):
+                st['pos'] = add(i2, SIZE, off)
+            elif whence == K(1):
+                st['pos'] = add(i2, st['pos'], off)
+            elif whence == K(0):
+                st['pos'] = off
+            else:
+                i2.inexact('seek with whence %s' % show(whence))
+            return st['pos']
+
+        def read(i2, a, kw, name_='read'):
+            n = a[0] if a else K(-1)
+            i2.effect('call', '.' + name_, tuple(i2.termify(x) for x in a))
+            whole = name_ == 'read' and isinstance(n, K) and (
+                n.v is None or (isinstance(n.v, int) and n.v < 0))
+            t = T('filedata', i2.termify(st['pos']),
+                  K('to the end') if whole else T('upto', i2.termify(n),
+                                                  K(name_)))
+            i2.types[t] = 'bytes'
+            if whole:
+                st['pos'] = SIZE
+            return t
+
+        def close(i2, a, kw):
+            st['closed'] = True
+            i2.effect('call', '.close', ())
+            return K(None)
+        fobj.fields['seek'] = AbsFunc('seek', seek)
+        fobj.fields['tell'] = AbsFunc('tell', lambda i2, a, kw: (
+            i2.effect('call', '.tell', ()), st['pos'])[1])
+        fobj.fields['read'] = AbsFunc('read', read)
+        for other in ('read1', 'readline', 'readinto', 'peek'):
+            fobj.fields[other] = AbsFunc(
+                other, lambda i2, a, kw, o=other: read(i2, a, kw, o))
+        fobj.fields['close'] = AbsFunc('close', close)
+        fobj.fields['__enter__'] = AbsFunc('__enter__',
+                                           lambda i2, a, kw: fobj)
+        fobj.fields['__exit__'] = AbsFunc(
+            '__exit__', lambda i2, a, kw: (close(i2, [], {}), K(False))[1])
+        return fobj
 
     def thunk(interp):
         holder.clear()
         return interp.call(f, [T('sym', 'path'), num])
 
-    def setup(interp):
-        interp.on_call = _failing({'.seek'}, holder, count=1)
-        interp.types[num] = 'int'
+    def capture(interp):
+        return dict(holder.get('st', {}))
 
-    outcomes, _i = extract(world, thunk, setup=setup)
+    def setup(interp):
+        interp.on_call = hook
+        interp.types[num] = 'int'
+        interp.types[SIZE] = 'int'
+
+    outcomes, _i = extract(world, thunk, setup=setup, capture=capture)
     notes = inexact_notes(outcomes)
     if notes:
         rep.undecided('R20.3', 'last_bytes', 'inexact: %s' % notes)
         return
-    seek_end, seek_set = 2, 0
+    rep.count('last_bytes paths', len(outcomes), floor=3)
     for o in outcomes:
         assumed = dict(o.assumptions)
-        fails = assumed.get(RAISES)
-        label = 'seek %s' % ('fails' if fails else 'succeeds')
-        events = [(e[1], e[2]) for e in o.effects if e[0] == 'call' and
-                  e[1] in ('.seek', '.tell', '.read', 'open')]
-        names = [n for n, _a in events]
+        fails = bool(assumed.get(RAISES))
+        einval = None
+        for t, b in o.assumptions:
+            if isinstance(t, T) and t.op == 'cmp' and t.args[1] == ERRNO \
+                    and t.args[2] == K(errno.EINVAL):
+                einval = b
+        label = 'first seek %s%s' % (
+            'fails' if fails else 'succeeds',
+            '' if not fails else ' with errno %s EINVAL' % (
+                '==' if einval else '!='))
+        names = [e[1] for e in o.effects if e[0] == 'call']
         rep.case({'case': label, 'events': names, 'outcome': o.brief()},
                  ('last_bytes', label, tuple(names), o.kind))
-        if not events or names[0] != 'open':
-            rep.check('R20.3', 'last_bytes:open', False,
-                      'file is not opened first: %s' % names)
-            continue
-        all_seeks = [a for n, a in events if n == '.seek']
-        if not all_seeks:
-            rep.check('R20.3', 'last_bytes:seek-end', False,
-                      'a path (%s) reads the file without positioning it '
-                      'num bytes before the end: the whole content is '
-                      'returned instead of the last num bytes' % [
-                          (show(t), b) for t, b in o.assumptions])
-            continue
-        first_seek = all_seeks[0]
-        neg = lin(first_seek[1]) if len(first_seek) > 2 else None
-        ok_first = len(first_seek) == 3 and neg == (0, {num: -1}) and \
-            first_seek[2] == K(seek_end)
-        rep.check('R20.3', 'last_bytes:seek-end', ok_first,
-                  'first positioning is seek(-num, SEEK_END); found '
-                  'seek(%s)' % ', '.join(show(x) for x in first_seek[1:]))
-        if o.kind == 'raise':
-            einval = None
-            for t, b in o.assumptions:
-                if isinstance(t, T) and t.op == 'cmp' and t.args[1] == ERRNO:
-                    if t.args[2] == K(errno.EINVAL):
-                        einval = b
+        st = o.state or {}
+        rep.check('R20.3', 'last_bytes:closed', bool(st.get('closed')),
+                  '%s: the file is closed when the function is left' % label)
+        if fails and not einval:
             rep.check('R20.1', 'last_bytes:reraise',
-                      fails and einval is False and
-                      isinstance(o.value, Obj) and
+                      o.kind == 'raise' and isinstance(o.value, Obj) and
                       o.value.label == 'injected-OSError',
-                      'an error propagates only when seek failed with errno '
-                      '!= EINVAL, as the same object (%s)' % label)
+                      '%s: the error propagates as the same object; found '
+                      '%s' % (label, o.brief()))
             continue
-        seeks = [a for n, a in events if n == '.seek']
-        if fails:
-            ok = len(seeks) == 2 and seeks[1][1:] == (K(0), K(seek_set))
-            einval = [b for t, b in o.assumptions if isinstance(t, T) and
-                      t.op == 'cmp' and t.args[1] == ERRNO and
-                      t.args[2] == K(errno.EINVAL)]
-            rep.check('R20.1', 'last_bytes:EINVAL-fallback',
-                      ok and einval == [True],
-                      'after a failed seek the function continues only for '
-                      'errno == EINVAL, by seek(0, SEEK_SET); found seeks %s '
-                      'under %s' % ([show(T('a', *s[1:])) for s in seeks],
-                                    [(show(t), b) for t, b in o.assumptions]))
-        else:
-            rep.check('R20.3', 'last_bytes:single-seek', len(seeks) == 1,
-                      'no second seek when the first succeeded')
-        tail = [n for n in names if n in ('.tell', '.read')]
-        rep.check('R20.3', 'last_bytes:tell-before-read',
-                  tail == ['.tell', '.read'],
-                  'tell() then one read(): %s' % tail)
-        reads = [a for n, a in events if n == '.read']
-        rep.check('R20.3', 'last_bytes:unbounded-read',
-                  len(reads) == 1 and len(reads[0]) == 1,
-                  'read() takes no size argument')
+        want = (0, {}) if fails else (0, {SIZE: 1, num: -1})
         v = o.value
-        ok = isinstance(v, TupleV) and len(v.items) == 2 and \
-            all(isinstance(x, T) and x.op == 'ret' for x in v.items) and \
-            v.items[0].args[0] == '.read' and v.items[1].args[0] == '.tell'
-        rep.check('R20.3', 'last_bytes:result', ok,
-                  'returns (data read, tell() result); found %s' % show(v))
+        ok = o.kind == 'return' and isinstance(v, TupleV) and \
+            len(v.items) == 2
+        data = v.items[0] if ok else None
+        ok_data = ok and isinstance(data, T) and data.op == 'filedata' and \
+            data.args[1] == K('to the end') and _lin0(data.args[0]) == want
+        ok_count = ok and _lin0(v.items[1]) == want
+        what = 'the start of the file' if fails else 'size - num'
+        rep.check('R20.3', 'last_bytes:data[%s]' % label, bool(ok_data),
+                  '%s: the data returned is everything from %s to the end of '
+                  'the file; found %s' % (label, what,
+                                          show(data) if ok else o.brief()))
+        rep.check('R20.3', 'last_bytes:count[%s]' % label, bool(ok_count),
+                  '%s: the second element is the number of bytes before that '
+                  'point (%s); found %s' % (
+                      label, what, show(v.items[1]) if ok else o.brief()))
+
+
+def _lin0(t):
+    if isinstance(t, K) and isinstance(t.v, int) and \
+            not isinstance(t.v, bool):
+        return (t.v, {})
+    r = lin(t) if isinstance(t, T) else None
+    if r is None:
+        return None
+    return (r[0], {k: c for k, c in r[1].items() if c})
 
 
 def _checksum(ctx):
@@ -415,6 +469,33 @@ def _tempfile(ctx):
                     raise AbsRaise(Obj(None, {'__class_name__': 'OSError'},
                                        label='injected-OSError'))
                 return T('sym', 'written')
+            if name == 'os.fdopen' and args:
+                # a file object wrapped around the descriptor: its write()
+                # and close() are the same events as os.write / os.close
+                fd_ = args[0]
+                fobj = Obj(None, {}, label='fdopen-file')
+                st = {'closed': False}
+
+                def write(i2, a, kw):
+                    return hook(i2, 'os.write', None, [fd_] + list(a), {})
+
+                def close(i2, a, kw):
+                    if not st['closed']:
+                        st['closed'] = True
+                        i2.effect('call', 'os.close', (i2.termify(fd_),))
+                    return K(None)
+
+                def leave(i2, a, kw):
+                    close(i2, [], {})
+                    return K(False)
+                fobj.fields['write'] = AbsFunc('write', write)
+                fobj.fields['close'] = AbsFunc('close', close)
+                fobj.fields['flush'] = AbsFunc('flush',
+                                               lambda i2, a, kw: K(None))
+                fobj.fields['__enter__'] = AbsFunc(
+                    '__enter__', lambda i2, a, kw: fobj)
+                fobj.fields['__exit__'] = AbsFunc('__exit__', leave)
+                return fobj
             return NotImplemented
 
         def thunk(interp):
